@@ -13,12 +13,41 @@ P = {'id': 'C19',
               'mv_set_len_safe',
               'ro_roundtrip',
               'ro_truncated_refused',
-              'mv_torn_rewrite_v0_refuted'],
- 'trusted': ['modelled (M+S): src/memory/mmap_vec.rs MmapVecHeader::validate, open/validate_file_length, len/get, the file image sync() writes and the '
-             'file operations sync()/resize_to_capacity issue; src/blob_store/reorder_map.rs builder record encoding and open/validate_entries/iteration '
-             '(model evaluated against the real reader and writer on every run; round-trip and truncation theorems)',
-             'spec-only (oracle on the real code, no mechanism model): PlainBlobStore, ZipOffsetBlobStore, SuffixArrayDictionary save/load, '
-             'MemoryMappedOutput -> MemoryMappedInput',
+              'mv_torn_rewrite_v0_refuted',
+              'zo_save_is_zip_image',
+              'zo_reopen_after_save',
+              'zo_truncated_refused',
+              'zo_footer_cut_reopens',
+              'zo_load_inside_file',
+              'replace_multi_crash_safe',
+              'zo_save_crash_safe',
+              'zo_resave_crash_safe',
+              'plain_crash_safe',
+              'plain_tmp_truncated',
+              'plain_put_notrunc_refuted',
+              'mv_ops_preserve_header_inv',
+              'mv_ops_sync_reopens',
+              'mv_copy_from_underreserve_refuted',
+              'ro_builder_writes_concat',
+              'ro_build_crash_safe',
+              'ro_builder_whole_blocks_refuted',
+              'mmio_roundtrip',
+              'mmio_history_inv',
+              'crash_setlen_compose',
+              'mv_units_crash_safe',
+              'mv_traced_history_crash_safe'],
+ 'coq_deps': ['C03'],
+ 'trusted': ['modelled (M+S): src/memory/mmap_vec.rs MmapVecHeader::validate, open/validate_file_length, len/get, the file image sync() writes, the '
+             'file operations sync()/resize_to_capacity issue, and the in-memory operations (push/grow, pop, get_mut, truncate, clear, reserve, '
+             'shrink_to_fit, resize, extend, push_bulk_simd, copy_from_simd, sync, reopen) as a state machine over (elements, capacity, file length); '
+             'src/blob_store/reorder_map.rs builder record encoding, its buffered write sequence and temporary-file protocol, and '
+             'open/validate_entries/iteration; src/blob_store/zip_offset.rs FileHeader, save_to_writer/save_to_file, load_from_reader, get, with '
+             'src/blob_store/sorted_uint_vec.rs to_bytes/from_bytes/get2 (byte-exact); src/blob_store/plain.rs put/remove/reopen refined to named file '
+             'operations (ids from the C03 directory model); src/io/mmap.rs MemoryMappedOutput create/ensure_capacity/write_slice/seek/truncate and '
+             'MemoryMappedInput len/read_slice (all evaluated against the real readers and writers on every run)',
+             'spec-only (oracle on the real code, no mechanism model): SuffixArrayDictionary save/load (bincode image; its write protocol is compared '
+             'with the modelled atomic-replace sequence)',
+             'zstd (compress_level > 0) is outside the model: the harness builds ZipOffsetBlobStore files with compress_level 0',
              'the in-process file-operation tracer of the harness (libc symbol interposition; self-tested at start-up and cross-checked against the '
              'real directory after every case) and the crash relation built on it: ordered prefixes, torn last write, one unsynced write dropped, '
              'one 4 KiB block rolled back; fsync pins earlier writes of that file; rename/unlink/set_len atomic',
@@ -31,13 +60,19 @@ P = {'id': 'C19',
                'byte strings, about a Gallina restatement of MmapVec open/validate/read and of the file operations its sync issues, over an explicit '
                'crash relation (clean reopen is exact; whatever open accepts lies inside the file; every truncation of a synced file is refused; every '
                'crash image of sync() reopens as the old or the new content; in-place set_len is safe; the pinned tree\'s protocol is refuted by a '
-               'witness). The model is tied to the compiled code on every run by evaluating hundreds of real and damaged file images in Coq against '
+               'witness), and likewise about the ZipOffsetBlobStore file (save then load gives the store back for every content length, every '
+               'truncation before the unread footer is refused, whatever load accepts lies inside the file), the multi-write atomic-replace protocol '
+               '(every crash image: old file or the complete concatenation of the writes), PlainBlobStore histories under the crash relation, every '
+               'MmapVec operation history (length <= capacity and the file covers the capacity), the buffered writes of ZReorderMapBuilder and '
+               'MemoryMappedOutput/Input; three seeded regressions are refuted on the model by witnesses. The model is tied to the compiled code on every run by evaluating hundreds of real and damaged file images in Coq against '
                'what a separate reader process observed, and a direct oracle traces the real file operations of every writer, constructs the crash '
                'images and truncations and reopens each in a child process. Proof is the right level because the quantifier is all histories, all '
                'crash points and all byte strings.',
  'level_note': 'Trusted: Coq kernel + vm_compute; the hand-written model (agreement with the code is checked on generated cases only); the harness '
-               'tracer, crash relation, generators and oracle. Oracle-only cells: PlainBlobStore, ZipOffsetBlobStore, SuffixArrayDictionary, '
-               'MemoryMappedOutput/Input. ZReorderMap: executable model of writer and reader checked against the code, round-trip and truncation theorems.',
+               'tracer, crash relation, generators and oracle. Oracle-only cell: SuffixArrayDictionary. All other cells (MmapVec, ZReorderMap, '
+               'PlainBlobStore, ZipOffsetBlobStore, MemoryMappedOutput/Input) have executable models of writer and reader checked against the code on '
+               'every run and unbounded theorems (round trip, truncation, inside-file, crash safety of the write protocol, header invariant of every '
+               'operation history).',
  'technique': 'Coq proof (list/firstn/skipn reasoning, case analysis over the crash relation, lia) + model/implementation differential check evaluated by '
               'vm_compute + traced crash-image oracle with reopen in a separate process',
  'explanation': 'Unbounded Coq theorems about a Gallina restatement of MmapVec open/sync and an explicit crash relation + differential check of the model '
